@@ -18,6 +18,11 @@ import (
 var srcConfigs = []string{"none", "rc4-128", "aes-128"}
 var tgtConfigs = []string{"1.4", "1.7-aes128", "2.0", "2.0-aes256"}
 
+// tgtRC4 is an extra target: PDF 1.4 with RC4-128 (per-object keys like
+// AES-128, but a string or stream decrypted with the wrong key reads as
+// garbage instead of failing).
+const tgtRC4 = "1.4-rc4128"
+
 // tgtNoSeek is an extra target: PDF 1.4 written to a sink that can only
 // Write (the writer cannot read back or patch what it has written, stream
 // lengths become indirect objects).
@@ -32,7 +37,7 @@ func writerFor(cfg string) (pdf.Version, *pdf.WriterOptions, error) {
 	switch cfg {
 	case "none", "1.4", tgtNoSeek:
 		return pdf.V1_4, nil, nil
-	case "rc4-128":
+	case "rc4-128", tgtRC4:
 		return pdf.V1_4, enc, nil
 	case "aes-128":
 		return pdf.V1_6, enc, nil
@@ -48,10 +53,15 @@ func writerFor(cfg string) (pdf.Version, *pdf.WriterOptions, error) {
 
 // values --------------------------------------------------------------------
 
-func objInt(j int) pdf.Integer  { return pdf.Integer(1000 + j) }
-func objStr(j int) pdf.String   { return pdf.String(fmt.Sprintf("object-%d-string", j)) }
+func objInt(j int) pdf.Integer     { return pdf.Integer(1000 + j) }
+func objStr(j int) pdf.String      { return pdf.String(fmt.Sprintf("object-%d-string", j)) }
 func itemInt(j, p int) pdf.Integer { return pdf.Integer(10*(j+1) + p) }
 func itemStr(j, p int) pdf.String  { return pdf.String(fmt.Sprintf("s%d.%d", j, p)) }
+
+// nestedStr is the string inside the nested container at position p of object j.
+func nestedStr(j, p int) pdf.String { return pdf.String(fmt.Sprintf("nested-%d.%d", j, p)) }
+
+const nestedKey = pdf.Name("N")
 
 var dictKeys = []pdf.Name{"A", "B"}
 
@@ -110,8 +120,21 @@ type source struct {
 	numAux   int
 }
 
+// stale is the reference with the number of object j and a wrong generation.
+func (s *source) stale(j int) pdf.Reference {
+	return pdf.NewReference(s.refs[j].Number(), s.refs[j].Generation()+1)
+}
+
 func (s *source) itemObj(it Item, j, p int) pdf.Object {
 	switch it.K {
+	case 'g':
+		return s.stale(it.R)
+	case 'm':
+		return nestedStr(j, p)
+	case 'A':
+		return pdf.Array{s.itemObj(it.inner(), j, p)}
+	case 'T':
+		return pdf.Dict{nestedKey: s.itemObj(it.inner(), j, p)}
 	case 'i':
 		return itemInt(j, p)
 	case 's':
@@ -132,6 +155,18 @@ func (s *source) itemObj(it Item, j, p int) pdf.Object {
 	panic("bad item")
 }
 
+// describeSource fixes the object numbers of a source without writing it:
+// object j of the graph is indirect object j+1, the free object follows. (The
+// oracle and the reference copier only need this much.)
+func describeSource(g Graph, cfg string) *source {
+	s := &source{g: g, cfg: cfg, dangling: pdf.NewReference(70, 0)}
+	for j := range g {
+		s.refs = append(s.refs, pdf.NewReference(uint32(j+1), 0))
+	}
+	s.free = pdf.NewReference(uint32(len(g)+1), 0)
+	return s
+}
+
 // buildSource writes the graph with pdf.Writer into memory.
 func buildSource(g Graph, cfg string) (*source, error) {
 	v, opt, err := writerFor(cfg)
@@ -143,11 +178,15 @@ func buildSource(g Graph, cfg string) (*source, error) {
 	if err != nil {
 		return nil, err
 	}
-	s := &source{g: g, cfg: cfg, dangling: pdf.NewReference(70, 0)}
-	for range g {
-		s.refs = append(s.refs, w.Alloc())
+	s := describeSource(g, cfg)
+	for j := range g {
+		if ref := w.Alloc(); ref != s.refs[j] {
+			return nil, fmt.Errorf("Writer.Alloc hands out %v for the object %d of a new file, the harness assumes %v", ref, j, s.refs[j])
+		}
 	}
-	s.free = w.Alloc() // never written: a free entry of the xref
+	if ref := w.Alloc(); ref != s.free { // never written: a free entry of the xref
+		return nil, fmt.Errorf("Writer.Alloc hands out %v, the harness assumes %v", ref, s.free)
+	}
 	for j, o := range g {
 		ref := s.refs[j]
 		switch o.K {
@@ -253,7 +292,11 @@ func (s *source) verify() error {
 			return fmt.Errorf("object %d (%s) reads back wrong: %s", j, o, f.list[0].what)
 		}
 	}
-	for _, ref := range []pdf.Reference{s.free, s.dangling} {
+	dead := []pdf.Reference{s.free, s.dangling}
+	for j := range s.g {
+		dead = append(dead, s.stale(j))
+	}
+	for _, ref := range dead {
 		got, err := r.Get(ref, true)
 		if err != nil || got != nil {
 			return fmt.Errorf("reference %v reads as %v, %v; want null", ref, got, err)
@@ -265,8 +308,9 @@ func (s *source) verify() error {
 // programs ----------------------------------------------------------------------
 
 // Op is one call: 'C' Copy(value of object J), 'R' CopyReference(ref of object
-// J), 'D' Redirect(ref of object J, fresh target object). J = -1 stands for
-// the dangling reference (only with 'R').
+// J), 'D' Redirect(ref of object J, fresh target object), 'G'
+// CopyReference(stale reference to object J: same number, wrong generation).
+// J = -1 stands for the dangling reference (only with 'R').
 type Op struct {
 	K byte
 	J int
@@ -290,7 +334,7 @@ func progString(p []Op) string {
 func parseProg(s string, n int) ([]Op, error) {
 	var out []Op
 	for _, f := range strings.Fields(s) {
-		if len(f) != 2 || strings.IndexByte("CRD", f[0]) < 0 {
+		if len(f) != 2 || strings.IndexByte("CRDG", f[0]) < 0 {
 			return nil, fmt.Errorf("bad op %q", f)
 		}
 		o := Op{K: f[0]}
@@ -336,6 +380,7 @@ type step struct {
 type execution struct {
 	steps    []step
 	tgt      []byte
+	mem      *memTarget // self-test: the target described as data instead of a file
 	trans    [][2]pdf.Reference
 	fatal    string // panic text / non-termination
 	fatalFP  string
@@ -393,6 +438,8 @@ func execute(s *source, prog []Op, tgtCfg string) (ex *execution) {
 				ref = s.refs[op.J]
 			}
 			st.ref, st.err = c.CopyReference(ref)
+		case 'G':
+			st.ref, st.err = c.CopyReference(s.stale(op.J))
 		case 'C':
 			val, err := r.Get(s.refs[op.J], true)
 			if err != nil {
@@ -455,7 +502,7 @@ func (ex *execution) stateKey() string {
 		if fresh[kv[1]] {
 			c = 'f'
 		}
-		fmt.Fprintf(&b, "%d%c,", kv[0].Number(), c)
+		fmt.Fprintf(&b, "%d.%d%c,", kv[0].Number(), kv[0].Generation(), c)
 	}
 	// what the oracle expects of the future also depends on which
 	// redirects the program has asked for (whether or not the copier took
